@@ -418,3 +418,171 @@ class ElementModel:
 
 _NOARG = object()
 _MISSING = object()
+
+
+# ---------------------------------------------------------------------------------------------
+# HostModel: scalar / top-level helpers (C05)
+
+ABSENT = "<ABSENT>"
+SUPPORTED_VALUE_KINDS = ("int", "str", "float", "optint", "union", "lit", "bounded", "validated",
+                         "list_int", "dict_int", "set_int", "leaf", "any")
+
+
+def _abs(v):
+    from .snap import abs_value
+
+    return abs_value(v)
+
+
+def leaf_abs(attrs):
+    return {"__cls__": "Leaf", "attrs": {k: _abs(v) for k, v in sorted(attrs.items())}}
+
+
+class HostModel:
+    """
+    Expected abstract state after one scalar / top-level helper call, from the documented
+    semantics: with_ replaces by the prepared value (or builds the nested spec from keywords),
+    update_ merges keywords into the existing nested value, transform_ stores f(old), reset_
+    restores the default, update / transform / reset apply several such changes; attributes
+    declared invalidated_by a changed attribute are reset (transitively).
+    """
+
+    def __init__(self, world, role):
+        self.world = world
+        self.role = role
+        self.info = world.info(role)
+        self.names = list(self.info)
+
+    # -- building blocks ----------------------------------------------------------------------
+    def prepared(self, name, value):
+        """Documented preparation of a whole attribute value: attribute preparer, then item preparer per element."""
+        a = self.info[name]
+        kind = a["kind"]
+        if kind not in SUPPORTED_VALUE_KINDS:
+            raise Unmodelled(f"value model for {kind}")
+        if a.get("prepare"):
+            value = PREPARERS[a["prepare"]](None, value)
+        ip = a.get("prepare_item")
+        if kind == "list_int":
+            if value is None:
+                value = []
+            if not isinstance(value, list):
+                raise Unmodelled("coercion of a non-list")
+            value = [apply_item_preparer(ip, x) for x in value]
+        elif kind == "dict_int":
+            if value is None:
+                value = {}
+            if not isinstance(value, dict):
+                raise Unmodelled("coercion of a non-dict")
+            value = {k: apply_item_preparer(ip, x) for k, x in value.items()}
+        elif kind == "set_int":
+            if value is None:
+                value = set()
+            if not isinstance(value, (set, frozenset)):
+                raise Unmodelled("coercion of a non-set")
+            value = {apply_item_preparer(ip, x) for x in value}
+        return value
+
+    def default_abs(self, name):
+        a = self.info[name]
+        d = a["default"]
+        if d[0] == "none":
+            return ABSENT
+        v = self.world.build(d[1], False)
+        if a["kind"] == "leaf":
+            return _abs(v)
+        if a["kind"] not in SUPPORTED_VALUE_KINDS:
+            return _abs(v) if not (a.get("prepare") or a.get("prepare_item")) else None
+        return _abs(self.prepared(name, v))
+
+    def dependants(self, changed):
+        """Attributes to reset after `changed` was successfully mutated (transitive, in discovery order)."""
+        out = []
+        frontier = list(changed)
+        seen = set(changed)
+        while frontier:
+            c = frontier.pop(0)
+            for n, a in self.info.items():
+                inv = a.get("flags", {}).get("invalidated_by") or []
+                if (c in inv or "*" in inv) and n not in seen and n != c:
+                    seen.add(n)
+                    out.append(n)
+                    frontier.append(n)
+        return out
+
+    # -- leaf value pipeline --------------------------------------------------------------------
+    @staticmethod
+    def leaf_from(value, kw, old_attrs=None, replace=True):
+        """-> attrs dict of the resulting nested Leaf (documented pipeline), or raises Unmodelled."""
+        if value is not _NOARG:
+            if isinstance(value, dict):
+                if not attrs_type_ok("leaf", {**kw, **value}):
+                    raise Unmodelled("ill-typed nested keywords")
+                return new_spec_attrs("leaf", {**kw, **value})
+            if elem_kind_of(value) != "leaf":
+                raise Unmodelled("non-leaf value")
+            attrs = spec_attrs(value)
+        elif old_attrs is not None and not replace:
+            attrs = dict(old_attrs)
+        else:
+            if not attrs_type_ok("leaf", kw):
+                raise Unmodelled("ill-typed nested keywords")
+            return new_spec_attrs("leaf", kw)
+        if not attrs_type_ok("leaf", kw):
+            raise Unmodelled("ill-typed nested keywords")
+        return {**attrs, **kw}
+
+    # -- one attribute ---------------------------------------------------------------------------
+    def expect_attr(self, name, verb, before_real, args, kw):
+        """-> expected abs of attribute `name` (or ABSENT); args: real values, function names as str in FnName."""
+        a = self.info[name]
+        kind = a["kind"]
+        if verb == "reset":
+            d = self.default_abs(name)
+            if d is None:
+                raise Unmodelled("default with preparer on unsupported kind")
+            return d
+        if kind == "leaf":
+            old = spec_attrs(before_real) if elem_kind_of(before_real) == "leaf" else None
+            if verb == "with":
+                val = args[0] if args else _NOARG
+                if val is _NOARG and not kw:
+                    return leaf_abs(new_spec_attrs("leaf", {}))
+                return leaf_abs(self.leaf_from(val, kw, old, replace=True))
+            if verb == "update":
+                val = args[0] if args else _NOARG
+                return leaf_abs(self.leaf_from(val, kw, old, replace=False))
+            if verb == "transform":
+                if old is None:
+                    raise Unmodelled("transform of a missing nested value")
+                e = Elem("leaf", attrs=dict(old))
+                fn = args[0].name if args else None
+                em = ElementModel({"kind": "list_leaf"}, None)
+                e = em.transform_elem(e, fn, {k: v.name for k, v in kw.items()})
+                return leaf_abs(e.attrs)
+        if kind not in SUPPORTED_VALUE_KINDS:
+            raise Unmodelled(f"value model for {kind}")
+        if verb in ("with", "update"):
+            if not args or kw:
+                raise Unmodelled("form without a plain value")
+            return _abs(self.prepared(name, args[0]))
+        if verb == "transform":
+            if kw or not args:
+                raise Unmodelled("attribute transforms on a non-spec value")
+            if before_real is _MISSING:
+                raise Unmodelled("transform of a missing value")
+            import copy as _copy
+
+            try:
+                nv = FUNCS[args[0].name](_copy.deepcopy(before_real))
+            except Exception:
+                raise Unmodelled("transform raised")
+            if getattr(type(nv), "__name__", "") == "_MissingType":
+                raise Unmodelled("transform returned a sentinel")
+            return _abs(self.prepared(name, nv))
+        raise Unmodelled(verb)
+
+
+class FnName:
+    def __init__(self, name):
+        self.name = name
